@@ -359,6 +359,10 @@ class ClassInterp(object):
                     r = any(self.compare(ast.Eq(), a, it).v for it in items)
                 return Int(r if isinstance(op, ast.In) else not r)
             b = self.ev(e.comparators[0], env)
+            if isinstance(a, str) and a.startswith('type:') and b == 'mpq_type' and \
+                    isinstance(op, (ast.Is, ast.IsNot, ast.Eq, ast.NotEq)):
+                r = a == 'type:mpq'
+                return Int(r if isinstance(op, (ast.Is, ast.Eq)) else not r)
             return self.compare(op, a, b)
         if isinstance(e, ast.IfExp):
             return self.ev(e.body if self.truth(self.ev(e.test, env)) else e.orelse, env)
@@ -418,14 +422,16 @@ class ClassInterp(object):
                 return Int(isinstance(x, Mpq))
             raise Unsupported('isinstance against %s' % norm(e.args[1]))
         if fn == 'type':
-            return 'type:int' if isinstance(args[0], PyInt) else 'type:other'
+            return 'type:int' if isinstance(args[0], PyInt) else 'type:mpq' if isinstance(args[0], Mpq) else 'type:other'
         if fn == 'bool':
             return Int(self.truth(args[0]))
         if fn == 'max' and len(args) == 2:
             if any(isinstance(a, Ext) for a in args):
                 kinds = [a.which for a in args if isinstance(a, Ext)]
                 if 'nan' in kinds:
-                    raise Unsupported('max with nan')
+                    # Python's max(a, b) is `b if b > a else a`: every comparison with nan is False,
+                    # so the FIRST argument is returned whichever of the two is nan
+                    return args[0]
                 if 'inf' in kinds:
                     return Ext('inf')
                 # max(-inf, x) = x
